@@ -38,7 +38,7 @@ M2DefaultFrequency == 140
 M2HeaderSize == 14
 \* repair switch (FALSE = the tree as it is): TRUE models the suggested repair of the delay loop
 \*   if (delta_time > 0x001FFFFF) goto _end;  before the multiplication,  if (delta_time < 0 || delta_time > 0x0FFFFFFF) goto _end;  after it
-M2RepairDelayLimit == FALSE
+M2RepairDelayLimit == TRUE     \* repaired in the tree (known_findings.json: fixed C17 mus-delay-overflow-crash)
 M2Midimap == <<0, 0, 1, 7, 10, 11, 91, 93, 64, 67, 120, 123, 126, 127, 121>>     \* mus_midimap[]
 M2MusId == <<77, 85, 83, 26>>
 
